@@ -78,7 +78,9 @@ impl Monitor for C05 {
                 return;
             }
         };
-        d.gen.cfg.restart_pm = 0;
+        // a few restarts (the model ignores them: the state must simply carry over), more of
+        // them under the profiles whose queues sit idle across GC passes
+        d.gen.cfg.restart_pm = if matches!(profile, Profile::Idle | Profile::Gc | Profile::Delete) { 25 } else { 5 };
         d.gen.cfg.bad_pm = 120;
         if case >= DEV_BASE {
             acc.count("histories_dev_profile_build");
